@@ -435,7 +435,12 @@ def mon09 : Monitor G09 where
   next env g op pre post := g.next env op pre post
   checks env g op pre post :=
     (match installedBy op post with
-      | some n => [(post.nextNum = some n, s!"C09: update reported patch {n} installed but next={optNat post.nextNum}")]
+      | some n =>
+        [ (post.nextNum = some n, s!"C09: update reported patch {n} installed but next={optNat post.nextNum}"),
+          (match post.ps.next with
+            | some m => post.valid env (g.cfg.bind (·.key)) m
+            | none => false,
+           s!"C09: update reported patch {n} installed but the selection it left does not validate (size or signature)") ]
       | none => []) ++
     (match (g.next env op pre post).sel with
     | none => []
